@@ -1,14 +1,52 @@
 """C13 — HTTP server: reload restarts iff config changed; never silently stale.
 Proof: props/C13.v.  Tie: check A (Config.Equal differential) + check B (reload histories, acceptor)."""
+import filecmp
 import os
+import shutil
 import tempfile
 from . import common as C
 from . import httplib as H
 
 OCAML = H.OCAML
-GO = H.GO
+GO = H.GO + ["cfgfields"]
 PROP = "props/C13.v"
-PROOFS = H.PROTO_PROOFS + ["proofs/HttpProgress.v"] + H.MODEL_FILES
+PROOFS = H.PROTO_PROOFS + ["proofs/HttpProgress.v", "proofs/HttpMeasure.v", "model/HttpCfgFieldsPolicy.v",
+                           "gen/HttpCfgFields.v"] + H.MODEL_FILES
+
+
+def regenerate_fields():
+    """Dump the field lists of httpserver.Config / Route from VERIF_REPO (harness/cmd/cfgfields, reflect); install
+    coq/gen/HttpCfgFields.v if its content changed."""
+    okb, log = C.go_build(["cfgfields"])
+    if not okb:
+        return False, log
+    tmp = os.path.join(C.BUILD, "HttpCfgFields-%d.v" % os.getpid())
+    rc, out = C.sh([os.path.join(C.BIN, "cfgfields"), "-out", tmp], env=C.GOENV, timeout=300)
+    if rc != 0:
+        return False, out
+    dst = os.path.join(C.COQ, "gen", "HttpCfgFields.v")
+    with C.Lock("coq"):
+        if not os.path.exists(dst) or not filecmp.cmp(tmp, dst, shallow=False):
+            shutil.copyfile(tmp, dst)
+    txt = open(tmp).read()
+    os.unlink(tmp)
+    return True, txt
+
+
+def unclassified_fields(gen_txt):
+    """Fields of the Go structs that the policy does not classify (computed here from the two texts: the gen file and
+    the policy compile even when props/C13.v does not)."""
+    import re
+    pol = open(os.path.join(C.COQ, "model", "HttpCfgFieldsPolicy.v")).read()
+    out = []
+    for struct, gdef, pdef in (("Config", "go_config_fields", "config_field_policy"), ("Route", "go_route_fields", "route_field_policy")):
+        g = re.search(r"Definition %s .*?:= \[(.*?)\]\." % gdef, gen_txt, re.S)
+        p = re.search(r"Definition %s .*?:= \[(.*?)\n\]\." % pdef, pol, re.S)
+        have = set(re.findall(r'^\s*\("([^"]+)",', p.group(1), re.M)) if p else set()
+        for name, ty in re.findall(r'\("([^"]+)", "([^"]*)"\)', g.group(1) if g else ""):
+            if name not in have:
+                out.append("%s.%s (%s)" % (struct, name, ty))
+    return out
 
 
 def check_equal(run):
@@ -57,7 +95,21 @@ def check_equal(run):
 
 
 def run(run):
+    okg, gen_txt = regenerate_fields()
+    if not okg:
+        run.violation("cfgfields-failed", {"log": gen_txt[-3000:]},
+                      "harness/cmd/cfgfields could not dump the fields of httpserver.Config (theorem C13_equal_fields_covered is "
+                      "not re-checked)", True)
+    else:
+        new = unclassified_fields(gen_txt)
+        if new:
+            run.violation("config-field-unclassified:" + ",".join(new)[:200],
+                          {"theorem": "C13_equal_fields_covered (coq/props/C13.v)", "fields": new},
+                          "the Go struct has field(s) that model/HttpCfgFieldsPolicy.v does not classify as compared by Equal or "
+                          "ignored: %s - decide whether Config.Equal (code and model) must compare them" % ", ".join(new), True)
     C.proof_leg(run, PROP, PROOFS, trusted_extra=[
+        "the field lists of httpserver.Config / Route are dumped by harness/cmd/cfgfields (reflect) on every run; the "
+        "classification compared/ignored in model/HttpCfgFieldsPolicy.v is hand-written",
         "model/HttpServer.v: abstract network (bind iff free, Shutdown unbinds, dial iff bound), ServeMux oracle, "
         "timing assumption T1 (the serve goroutine reaches net.Listen before the first probe tick); modelled, tied by check B",
         "C13_equal_iff is proved for EVERY permutation-invariant name key and for the code's key (sort + %v, modelled in "
@@ -66,6 +118,12 @@ def run(run):
     if not H.build(run):
         return
     eq_stats, eq_samples = check_equal(run)
+    try:  # extraction re-validation of the Equal differential (checks/vm_http.py, branch misc-3), once it is merged
+        from . import vm_http
+    except ImportError:
+        vm_http = None
+    if vm_http is not None:
+        vm_http.crosscheck_equal(run)
     res = H.run_hist(run, "C13")
     for p in res["props"]:
         if p["ok"] or not p["prop"].startswith("c13-"):
@@ -88,9 +146,14 @@ def run(run):
     cov["traces_validated_against_impl"] += eq_stats.get("eq", 0)
     cov["exhaustive"] = False
     run.assumptions += ["net/http.Server, the socket table and ServeMux are modelled (abstract network, oracle), not verified",
-                        "C13_equal_iff needs the ACTIVE configuration to be path-duplicate-free (it is being served, so "
-                        "ServeMux accepted it); a NEW configuration with duplicate paths is C19's business",
-                        "progress (C13_terminates) is 'no stuck state + measure', not liveness under fairness"]
+                        "the pure half needs the ACTIVE configuration to be path-duplicate-free; C13_served_config_nodup / "
+                        "C13_no_stale_server prove it from the protocol under mux_sound (the ServeMux refuses a repeated pattern); "
+                        "a NEW configuration with duplicate paths is C19's business",
+                        "termination (C13_terminates) is a bound on the number of implementation steps by a decreasing measure; the "
+                        "returns of the two external calls (configuration callback, http.Server.Shutdown) count as implementation "
+                        "steps: that they do return is assumed (C14 bounds Shutdown)",
+                        "a callback error wrapping the exported ErrOldConfig takes the unchanged path (code and model): that failure "
+                        "is not visible (C13_errold_is_unchanged)"]
 
 
 def replay(path):
